@@ -295,6 +295,20 @@ func extJSONMarshal(fr *frame, args []value) value {
 		}
 		return tuple{[]value(nil), i.mkError("json: error calling MarshalJSON for type vxrt.JSONValue: invalid character")}
 	}
+	// json.RawMessage: Marshal validates (and compacts) the raw bytes; the harness keeps them compact
+	if n, ok := itf.t.(*types.Named); ok && n.Obj().Name() == "RawMessage" && n.Obj().Pkg() != nil && n.Obj().Pkg().Path() == "encoding/json" {
+		raw := itf.v.([]value)
+		if raw == nil {
+			return tuple{strBytes("null"), nilErr()}
+		}
+		valid := i.callByName("github.com/tidwall/gjson", "ValidBytes", []value{raw})
+		if i.truth(valid) {
+			out := make([]value, len(raw))
+			copy(out, raw)
+			return tuple{out, nilErr()}
+		}
+		return tuple{[]value(nil), i.mkError("json: error calling MarshalJSON for type json.RawMessage: invalid character")}
+	}
 	// concrete scalars: the host's encoding/json
 	var gv interface{}
 	okv := true
